@@ -19,7 +19,7 @@ RULE = ("cases = (schema spec, plain value) with complete conforming values and 
 ASSUMPTIONS = ["carries(): scalars ==, floats within the documented tolerance of the coarsest declared precision, bool/int identified",
                "NaN-containing values excluded (nan != nan)",
                "generation from the result is demanded only when the original schema is hereditarily satisfiable"]
-TIERS = {"quick": dict(shards=16, cases=6000), "thorough": dict(shards=16, cases=80000)}
+TIERS = {"quick": dict(shards=16, cases=10000), "thorough": dict(shards=16, cases=80000)}
 
 
 def setup(ctx):
